@@ -10,6 +10,7 @@ import (
 	"math/rand"
 	"os"
 	"runtime"
+	"strings"
 	"sync/atomic"
 	"time"
 )
@@ -29,11 +30,14 @@ func Bad(w io.Writer, c *counter) {
 	go func() {}()          // goroutine
 	zw := gzip.NewWriter(w) // compressor header field set from a non-constant
 	zw.Header.ModTime = time.Now()
-	cache["k"] = 1                         // unlocked write to a package-level map
-	_ = os.WriteFile("/tmp/x", nil, 0o600) // file-system write
-	atomic.AddUint64(&c.n, 1)              // atomic access ...
-	c.n++                                  // ... mixed with a plain one
-	for k := range cache {                 // order-dependent map iteration
+	cache["k"] = 1                                 // unlocked write to a package-level map
+	_ = os.WriteFile("/tmp/x", nil, 0o600)         // file-system write
+	atomic.AddUint64(&c.n, 1)                      // atomic access ...
+	c.n++                                          // ... mixed with a plain one
+	if strings.HasPrefix(os.Args[0], os.Args[1]) { // path containment by bare string prefix
+		return
+	}
+	for k := range cache { // order-dependent map iteration
 		_, _ = io.WriteString(w, k)
 	}
 }
